@@ -152,7 +152,26 @@ impl Wal {
 		let sync_fd = Arc::new(file.try_clone()?);
 
 		// Get file size from the opened file handle
-		let existing_size = file.metadata()?.len();
+		let mut existing_size = file.metadata()?.len();
+
+		// A crash can leave a torn tail behind the last complete record (a partial
+		// header, or leading fragments of a record whose end never made it). The
+		// reader treats that as end-of-log, so anything appended after it would be
+		// unreachable on the next recovery: cut it off before appending.
+		if existing_size > 0 {
+			if let Some(valid_len) = Self::clean_prefix_len(&file_path) {
+				if valid_len < existing_size {
+					log::warn!(
+						"WAL #{:020}: dropping {} bytes of torn tail before appending",
+						log_number,
+						existing_size - valid_len
+					);
+					file.set_len(valid_len)?;
+					file.sync_all()?;
+					existing_size = valid_len;
+				}
+			}
+		}
 
 		if existing_size > 0 {
 			// Existing file: detect the compression type from the file itself.
@@ -179,6 +198,32 @@ impl Wal {
 				writer.add_compression_type_record()?;
 			}
 			Ok((writer, sync_fd))
+		}
+	}
+
+	/// Length of the prefix of a segment that ends exactly after its last
+	/// complete record, when everything behind it is a torn tail that the
+	/// reader reports as plain end-of-log. Returns `None` when the segment is
+	/// corrupted (left to repair). A segment without any complete record and
+	/// without a compression header is all torn tail (length 0).
+	fn clean_prefix_len(file_path: &Path) -> Option<u64> {
+		let file = File::open(file_path).ok()?;
+		let mut reader = super::reader::Reader::new(file);
+		let mut end: Option<u64> = None;
+		loop {
+			match reader.read() {
+				Ok((_, offset)) => end = Some(offset),
+				Err(Error::IO(e)) if e.kind() == io::ErrorKind::UnexpectedEof => {
+					return match end {
+						Some(end) => Some(end),
+						None => match Self::detect_compression_type(file_path) {
+							Ok(CompressionType::None) => Some(0),
+							_ => None,
+						},
+					};
+				}
+				Err(_) => return None,
+			}
 		}
 	}
 
